@@ -109,7 +109,7 @@ def diagnose(initial, ops, final):
         if o["kind"] == "read" and not o.get("raised"):
             nm = R if o["name"] == b"HEAD" else o["name"]
             if o["result"] is None and nm in initial and not any(x["kind"] in ("delete", "remove_if_equals") and (x["name"] in (nm, b"HEAD")) for x in ops):
-                return "reader-saw-ref-missing-although-it-exists-throughout"
+                return ("listing-omits" if o.get("via") else "reader-saw") + "-ref-missing-although-it-exists-throughout"
             if o["result"] is not None and o["result"] not in written:
                 return "reader-saw-value-never-written"
     succ_sets = [o for o in ops if o["kind"] == "set_if_equals" and o["result"] is True and o["old"] is not None]
@@ -185,6 +185,8 @@ def make_ops(spec, initial, counter):
             ops.append({"kind": "read", "name": OTHER})
         elif s == "set-other":
             ops.append({"kind": "set", "name": OTHER, "new": new})
+        elif s == "list":
+            ops.append({"kind": "list", "name": None})
         else:
             raise ValueError(s)
     return ops
@@ -212,6 +214,8 @@ def do_op(refs, op):
             return refs[op["name"]]
         except KeyError:
             return None
+    if k == "list":
+        return dict(refs.as_dict())
     raise ValueError(k)
 
 
@@ -256,6 +260,12 @@ def run_refs(case):
                         rec["raised"] = type(e).__name__
                         rec["result"] = None
                     rec["ret"] = len(holder["run"].trace)
+                    if op["kind"] == "list":
+                        # a listing is not promised to be a snapshot across names: it is checked per key, as a read of each name
+                        listed = rec["result"] if isinstance(rec["result"], dict) else {}
+                        for j, nm in enumerate((R, OTHER)):
+                            history.append(dict(rec, kind="read", name=nm, seq=seq + 0.25 * (j + 1), result=listed.get(nm), via="listing"))
+                        continue
                     history.append(rec)
             return body
         actors = {n: mk(n, ops) for n, ops in progs.items()}
@@ -459,6 +469,9 @@ def main(ctx):
     for w in WRITERS:
         for r in READERS:
             pairs.append([[w], [r]])
+    for w in WRITERS + ["set-other"]:
+        pairs.append([[w], ["list"]])
+    pairs += [[["pack"], ["list", "list"]], [["pack", "set"], ["list"]]]
     pairs += [[["cas", "read"], ["cas"]], [["pack"], ["set", "read"]], [["rm"], ["add", "read"]], [["pack"], ["set-other"]], [["pack"], ["read-other", "read"]]]
     rng = ctx.sub_rng("gen")
     for acts in pairs:
@@ -475,7 +488,7 @@ def main(ctx):
         cases.append({"kind": "commits", "seed": "%d/c/%s/%s" % (ctx.seed, apis, unborn), "apis": apis, "unborn": unborn,
                       "max_runs": ctx.budget(250, 3000), "bound": 2})
     ctx.rule = ("actor pairs drawn from {cas, cas via HEAD, stale cas, add_if_new, remove_if_equals, unconditional set/delete, pack_refs, read, read via "
-                "HEAD, read of another ref} x initial state of the ref {loose, packed, both, absent}: all schedules with <=2 preemptions (DFS at "
+                "HEAD, read of another ref, listing (as_dict, checked per key)} x initial state of the ref {loose, packed, both, absent}: all schedules with <=2 preemptions (DFS at "
                 "interposed-call granularity on ref paths), 5 triples, commit races through WorkTree.commit / do_commit. non-trivial = "
                 "distinct interleaving / distinct outcome vector per scenario.")
     ctx.assumptions = ["an operation that raised must linearise as a no-op", "multi-key reads are checked per key", "actors are threads with separate "
